@@ -419,3 +419,7 @@ func snapSingle(sb *strings.Builder, fd protoreflect.FieldDescriptor, v protoref
 	}
 	sb.WriteString(FormatValue(v))
 }
+
+// NormSnap is a no-op hook kept for symmetry with SnapshotNorm: snapshots of
+// built messages carry unknown records whose tags are already minimal.
+func NormSnap(s string) string { return s }
